@@ -11,7 +11,7 @@ def load_matrix(*paths):
             if len(w) >= 3 and w[0].startswith('C'): m[(w[0], w[1])] = ' '.join(w[2:]) + ((' -- first reports: ' + l.split('::', 1)[1].strip()[:300]) if '::' in l else '')
     return m
 rows = []
-for batch, root, mat in (('b1', '/tmp/mut/out', ('/tmp/mut/matrix.log', '/tmp/mut/matrix_rerun.log', '/tmp/mut/matrix_full.log')), ('b2', '/tmp/mut2/out', ('/tmp/mut2/matrix.log', '/tmp/mut2/matrix_rerun.log', '/tmp/mut2/matrix_full.log', '/tmp/mut2/matrix_rerun2.log')), ('b3', '/tmp/mut3/out', ('/tmp/mut3/matrix.log', '/tmp/mut3/matrix_rerun.log')), ('b4', '/tmp/mut4/out', ('/tmp/mut4/matrix.log', '/tmp/mut4/matrix_rerun.log')), ('b5', '/tmp/mut5/out', ('/tmp/mut5/matrix.log', '/tmp/mut5/matrix_rerun.log'))):
+for batch, root, mat in (('b1', '/tmp/mut/out', ('/tmp/mut/matrix.log', '/tmp/mut/matrix_rerun.log', '/tmp/mut/matrix_full.log')), ('b2', '/tmp/mut2/out', ('/tmp/mut2/matrix.log', '/tmp/mut2/matrix_rerun.log', '/tmp/mut2/matrix_full.log', '/tmp/mut2/matrix_rerun2.log')), ('b3', '/tmp/mut3/out', ('/tmp/mut3/matrix.log', '/tmp/mut3/matrix_rerun.log')), ('b4', '/tmp/mut4/out', ('/tmp/mut4/matrix.log', '/tmp/mut4/matrix_rerun.log')), ('b5', '/tmp/mut5/out', ('/tmp/mut5/matrix.log', '/tmp/mut5/matrix_rerun.log')), ('b6', '/tmp/mut6/out', ('/tmp/mut6/matrix.log', '/tmp/mut6/matrix_rerun.log'))):
     matrix = load_matrix(*mat)
     if not os.path.isdir(root): continue
     for pid in sorted(os.listdir(root)):
@@ -46,9 +46,18 @@ for batch, root, mat in (('b1', '/tmp/mut/out', ('/tmp/mut/matrix.log', '/tmp/mu
             files = sorted(set(re.findall(r'^\+\+\+ b/(\S+)', open(os.path.join(out, 'patch.diff')).read(), flags=re.M)))
             rows.append((pid, batch, m, title, ', '.join(files), meta['detected']))
             print(out, meta['detected'][:80])
-with open(os.path.join(V, 'seeded', 'INDEX.md'), 'w') as f:
+# rows of batches whose scratch directories are gone are kept as they stand in INDEX.md
+old = []
+ip = os.path.join(V, 'seeded', 'INDEX.md')
+if os.path.exists(ip):
+    have = {'%s-%s-%s' % (r[0], r[1], r[2]) for r in rows}
+    for l in open(ip):
+        c = [x.strip() for x in l.strip().strip('|').split(' | ')] if l.startswith('| C') else None
+        if c and len(c) >= 4 and c[0] not in have: old.append(l)
+with open(ip, 'w') as f:
     f.write('# Seeded changes (written by fresh sub-agents from the property text only; each confirmed by tools/verify_seeded.sh)\n\n')
     f.write('Detection = `VERIF_REPO=<scratch worktree with the patch> tools/check <id> --tier quick`: number of VIOLATION lines with a concrete failing input / number that only name a broken proof or correspondence (`nofail`), then the first reports.\n\n')
     f.write('| seeded change | files | title | detection by the property\'s own check |\n|---|---|---|---|\n')
+    for l in old: f.write(l)
     for pid, batch, m, title, files, det in rows:
         f.write('| %s-%s-%s | %s | %s | %s |\n' % (pid, batch, m, files, title.replace('|', '/'), det.replace('|', ' / ')[:330]))
